@@ -104,6 +104,19 @@ Definition spec_ok (i : input) (o : result) : bool :=
   && (if clean i then forallb call_ok (r_calls o) && nothing_left (i_now i) (r_auth o) (r_local o)
       else true).
 
+(* several passes: whatever earlier passes did (the service keeps no memory of them), every
+   local shard of a group the snapshot marks deleted is handed to DeleteShard in THIS pass —
+   a local delete that failed, or a shard that (re)appeared after its group was handled, is
+   tried again on the next pass *)
+Definition is_delshard (id : N) (c : call) : bool :=
+  match c with CDelShard x _ => N.eqb x id | _ => false end.
+Definition retry_ok (i : input) (o : result) : bool :=
+  forallb (fun id => implb (existsb (fun e => e_deleted e && holds e id) (entries (i_snap i)))
+                           (existsb (is_delshard id) (r_calls o))) (i_local i).
+
+(* a scenario: consecutive ticks of ONE service; each tick is judged on its own input *)
+Definition tick_ok (i : input) (o : result) : bool := spec_ok i o && retry_ok i o.
+
 (* ---------- pure functions, checked at exact boundaries ---------- *)
 
 (* RetentionPolicyInfo.ExpiredShardGroups(t) / DeletedShardGroups(): IDs in order *)
